@@ -30,8 +30,8 @@ import (
 
 var (
 	alphaExt = &alphabet{name: "ext", scopes: s5, probeSc: s5, errSc: s3, extra: []int{kHostErr, kMarkU, kMarkS}, extraSc: true,
-		filters: []int{fURLRegex, fHeaderRegex, fPort, fQS}, aggs: []bool{false, true}, prios: []int{0, 1},
-		describe: "ext: scopes {absent,[],[request],[response],[request,response]} on probe, fifo (aggregateErrors false/true), priority ({0,1}), url.RegexFilter (modifier, modifier+else), header.RegexFilter, port.Filter (modifier only: the types take no else), querystring.Filter (modifier, modifier+else); erroring leaf with scope {absent,[request],[response]}; Host-append, url.Modifier, status.Modifier with every scope their type implements"}
+		filters: []int{fURLRegex, fHeaderRegex, fPort, fQS, fQSAny}, aggs: []bool{false, true}, prios: []int{0, 1},
+		describe: "ext: scopes {absent,[],[request],[response],[request,response]} on probe, fifo (aggregateErrors false/true), priority ({0,1}), url.RegexFilter (modifier, modifier+else), header.RegexFilter, port.Filter (modifier only: the types take no else), querystring.Filter with name+value and with a name only (modifier, modifier+else); erroring leaf with scope {absent,[request],[response]}; Host-append, url.Modifier, status.Modifier with every scope their type implements"}
 	alphaExtMid = &alphabet{name: "extmid", scopes: s3, probeSc: s3, errSc: []int{scAbsent}, extra: nil,
 		filters: []int{fURLRegex, fHeaderRegex, fPort}, aggs: []bool{false, true}, prios: []int{0, 1},
 		describe: "extmid: scopes {absent,[request],[response]} on probe, fifo (aggregateErrors false/true), priority ({0,1}), url.RegexFilter (modifier, modifier+else), header.RegexFilter and port.Filter (modifier only); erroring leaf without scope"}
@@ -183,6 +183,130 @@ func fifoWide(maxK int) family {
 		}}
 }
 
+// prioEntries: flat priority groups of width 2..maxK whose children are probes (so the execution order shows in the
+// trace), priorities from {0,1,2}, and every spelling of every entry: an entry of priority 0 is written with
+// "priority":0, without the key, or with "priority":null.
+func prioEntries(maxK int) family {
+	var want int64
+	for k := 2; k <= maxK; k++ {
+		want += ipow(5, int64(k)) // per entry: priorities 1, 2 explicit; priority 0 in three spellings
+	}
+	return family{name: "prio_entries", want: want,
+		describe: fmt.Sprintf("prio_entries: every flat priority.Group with 2..%d probe children, priorities from {0,1,2}, each priority-0 entry spelled with \"priority\":0, without the key and with \"priority\":null", maxK),
+		gen: func(f func(*node)) {
+			for k := 2; k <= maxK; k++ {
+				nd := &node{Kind: kPrio, Prio: make([]int, k), PrioSp: make([]int, k), Kids: make([]*node, k)}
+				for i := range nd.Kids {
+					nd.Kids[i] = &node{Kind: kProbe}
+				}
+				var rec func(i int)
+				rec = func(i int) {
+					if i == k {
+						f(nd)
+						return
+					}
+					for _, opt := range [][2]int{{0, 0}, {0, 1}, {0, 2}, {1, 0}, {2, 0}} {
+						nd.Prio[i], nd.PrioSp[i] = opt[0], opt[1]
+						rec(i + 1)
+					}
+				}
+				rec(0)
+			}
+		}}
+}
+
+// prioEntryRejects: a priority group entry that names no modifier makes the whole configuration malformed. Every
+// flat group of width 2..maxK over priorities {0,1} is accepted by one long-lived handler; then, for every position,
+// the same document with that entry's modifier missing (key omitted, entry {}, "modifier":null) must be answered 400
+// and leave effect and GET as they were.
+func prioEntryRejects(maxK int, total *counters) {
+	mod := martianhttp.NewModifier()
+	c := &counters{}
+	w := &handlerWorker{mod: mod, c: c}
+	entry := func(p, id int) string {
+		return fmt.Sprintf(`{"priority":%d,"modifier":{"header.Append":{"name":"X-Trace","value":"n%d"}}}`, p, id)
+	}
+	wrap := func(es []string) []byte {
+		return []byte(`{"priority.Group":{"modifiers":[` + strings.Join(es, ",") + `]}}`)
+	}
+	msgs := msgsFor[0]
+	for k := 2; k <= maxK; k++ {
+		for bits := 0; bits < 1<<k; bits++ {
+			nd := &node{Kind: kPrio, Prio: make([]int, k), Kids: make([]*node, k)}
+			es := make([]string, k)
+			for i := range es {
+				nd.Prio[i] = bits >> i & 1
+				nd.Kids[i] = &node{Kind: kProbe}
+			}
+			number(nd, 0)
+			for i := range es {
+				es[i] = entry(nd.Prio[i], nd.Kids[i].ID)
+			}
+			doc := wrap(es)
+			c.trees++
+			if code, pan := w.post(doc); code != 200 || pan != "" {
+				rep.Violate("reconfig:valid_config:status_"+fmt.Sprint(code), fmt.Sprintf("POST of valid config %s answered %d %s", doc, code, pan), replay{Part: "reconfig", Config: string(doc)})
+				continue
+			}
+			exps := make([]outcome, len(msgs))
+			for i, m := range msgs {
+				exps[i] = expect(nd, m)
+				obs := observe(mod, mod, m, &c.calls)
+				c.evals++
+				if s := diff(exps[i], obs); s != "" {
+					reportEval(nd, m, s, c)
+				}
+				exps[i] = obs
+			}
+			activeRaw := w.getRaw()
+			for i := 0; i < k; i++ {
+				for vi, bad := range []string{fmt.Sprintf(`{"priority":%d}`, nd.Prio[i]), `{}`, fmt.Sprintf(`{"priority":%d,"modifier":null}`, nd.Prio[i])} {
+					es2 := append([]string{}, es...)
+					es2[i] = bad
+					bdoc := wrap(es2)
+					c.rejects++
+					code, pan := w.post(bdoc)
+					rp := replay{Part: "reject", Config: string(bdoc), Previous: string(doc)}
+					switch {
+					case pan != "":
+						rep.Violate("reject:priority_entry_without_modifier:panic", fmt.Sprintf("POST %s panicked: %s", bdoc, pan), rp)
+						w.mod = martianhttp.NewModifier()
+						mod = w.mod
+						w.post(doc)
+						continue
+					case code == 200:
+						rep.Violate("reject:priority_entry_without_modifier:accepted", fmt.Sprintf("configuration %s (entry %d of the priority group names no modifier, variant %d) was accepted with 200", bdoc, i, vi), rp)
+						w.post(doc)
+						continue
+					case code != 400:
+						rep.Violate("reject:priority_entry_without_modifier:status_"+fmt.Sprint(code), fmt.Sprintf("configuration %s answered %d, want 400", bdoc, code), rp)
+					}
+					for j, m := range msgs {
+						obs := observe(mod, mod, m, &c.calls)
+						c.evals++
+						if !sameOutcome(exps[j], obs) {
+							m := m
+							rep.Violate("reconfig:after_reject:effect_changed", fmt.Sprintf("active config %s; after rejected (%d) POST of %s message %s gives trace=%v, want trace=%v", doc, code, bdoc, m, obs.Trace, exps[j].Trace),
+								replay{Part: "reconfig", Config: string(bdoc), Previous: string(doc), Msg: &m, Expected: &exps[j], Observed: &obs})
+							w.post(doc)
+							break
+						}
+					}
+					if raw := w.getRaw(); !bytes.Equal(raw, activeRaw) {
+						rep.Violate("reconfig:after_reject:config_changed", fmt.Sprintf("active config %s; after rejected POST of %s GET returns %s", doc, bdoc, compact(raw)), rp)
+						w.post(doc)
+					}
+				}
+			}
+		}
+	}
+	total.evals += c.evals
+	total.calls += c.calls
+	total.rejects += c.rejects
+	total.posts += c.posts
+	total.perPhase["handler:flat:prio_entry_rejects"] += c.trees
+}
+
 func runFamily(fam family, total *counters, mu *sync.Mutex, genCounts map[string]int64) {
 	W := runtime.NumCPU()
 	var wg sync.WaitGroup
@@ -197,7 +321,7 @@ func runFamily(fam family, total *counters, mu *sync.Mutex, genCounts map[string
 				mine := (idx>>5)%W == w
 				idx++
 				if mine {
-					evalTree(t, c, false)
+					evalTree(t, c, false, false)
 				}
 			})
 			mu.Lock()
